@@ -478,6 +478,8 @@ def run(chk: lib.Check):
         pre_old = {0: "old", 1: "<p>old</p>", 2: "true", 3: "42", 4: "2.5", 5: "2001-02-03T04:05:06.007+0100", 6: None, 7: "old"}[kc]
         if kc == 6:
             pre_old = list(desc.enumcls.__members__.values())[-1].value
+        if kc == 2:
+            pre_old = rng.choice(["true", "false", "TRUE", "1", "", "true "])
         for vi, (v, venc, valid) in enumerate(vals):
             # the element before: other attributes around, the target attribute present or not
             present = (vi % 2 == 0) if writable else (vi % 3 != 0)
